@@ -45,7 +45,9 @@ func reformatDescription(input string, maxWidth int) []string {
 				pend = lineStart(word)
 				continue
 			}
-			if len(pend)+len(word) > maxWidth {
+			// measured as it would start the next line, so that a second
+			// pass takes the same decision
+			if len(pend)+len(lineStart(word)) > maxWidth {
 				linesOut = append(linesOut, pend)
 				pend = lineStart(word)
 				continue
